@@ -104,12 +104,22 @@ def render_fields(gen, fields, named, pub):
     return out
 
 
+HASHABLE_LEAVES = {"u8", "u16", "u32", "u64", "i8", "i16", "i32", "i64", "bool", "str", "char", "unit"}
+
+
+def hashable_fields(fields):
+    def ok(t):
+        return t["k"] in HASHABLE_LEAVES or (t["k"] == "opt" and ok(t["e"]))
+    return all(ok(f["t"]) for f in fields)
+
+
 def render_struct(gen, name, ty):
     fields = ty["fields"]
     # fields spelled "tmpl" get their type through a `$t:ty` fragment of a macro_rules template
     tmpl = [f for f in fields if f["t"]["k"] == "opt" and f.get("sp") == "tmpl"]
     gen.tmpl_idx = {id(f): i for i, f in enumerate(tmpl)}
-    src = ["#[derive(desert_macro::BinaryCodec)]"]
+    # (records of plain fields can be elements of hash containers)
+    src = ["#[derive(desert_macro::BinaryCodec, PartialEq, Eq, Hash)]" if hashable_fields(fields) else "#[derive(desert_macro::BinaryCodec)]"]
     ev = evolution_attr(gen, fields, ty["steps"])
     if ev:
         src.append(ev)
